@@ -50,6 +50,8 @@ fn c17_salting() -> R {
     let nbig = 5;
     let i = choice(cat.len() + nbig);
     let (name, e) = if i < cat.len() { (cat[i].show(), build(&cat[i])) } else { let t = [100usize, 160, 330, 1200, 5000][i - cat.len()]; (format!("big({})", t), big_envelope(t)) };
+    // some receivers already carry a salt assertion (an envelope received salted, or salted twice)
+    let e = if flag() { e.add_salt_instance(Salt::from_data(vec![3u8; 10])) } else { e };
     let before = bytes(&e);
     let size = before.len();
     let sub_before = bytes(&e.subject());
@@ -167,11 +169,11 @@ fn arid(i: u8) -> ARID { let mut d = [i; 32]; d[..8].copy_from_slice(&rt::nonce(
 fn functions() -> Vec<(&'static str, Function)> {
     vec![
         ("known 1 (add)", functions::ADD), ("known 100 unnamed", Function::new_known(100, None)), ("known 100 named", Function::new_known(100, Some("hundred".to_string()))),
-        ("named foo", Function::new_named("foo")), ("static named foo", Function::new_static_named("foo")), ("named add (same text as known add)", Function::new_named("add")), ("named empty", Function::new_named("")),
+        ("named foo", Function::new_named("foo")), ("static named foo", Function::new_static_named("foo")), ("named add (same text as known add)", Function::new_named("add")), ("named empty", Function::new_named("")), ("named 7 (digits)", Function::new_named("7")),
     ]
 }
 fn parameters() -> Vec<(&'static str, Parameter)> {
-    vec![("known lhs", parameters::LHS), ("known rhs", parameters::RHS), ("known 200", Parameter::new_known(200, None)), ("named p", Parameter::new_named("p")), ("static named p", Parameter::new_static_named("p")), ("named lhs", Parameter::new_named("lhs"))]
+    vec![("known lhs", parameters::LHS), ("known rhs", parameters::RHS), ("known 200", Parameter::new_known(200, None)), ("named p", Parameter::new_named("p")), ("static named p", Parameter::new_static_named("p")), ("named lhs", Parameter::new_named("lhs")), ("named 200 (digits)", Parameter::new_named("200"))]
 }
 fn values(i: usize) -> Envelope {
     match i { 0 => Envelope::new(2u8), 1 => Envelope::new("text"), 2 => build(&n(l(1), vec![a(l(2), l(3))])), 3 => build(&w(l(4))), 4 => Envelope::new(KnownValue::new(9)), 5 => build(&l(5)).elide(), _ => Envelope::new_assertion("x", "y") }
@@ -233,9 +235,9 @@ fn c18_expression() -> R {
 
 fn c18_request() -> R {
     let fs = functions();
-    let fi = [0usize, 3, 4, 5][choice(4)];
+    let fi = [0usize, 3, 4, 5, 7][choice(5)];
     let (body, _) = mk_expression_n(fi, choice(2), 3);
-    let note = ["", "a note"][choice(2)];
+    let note = ["", "a note", " ", "\t\n"][choice(4)];
     let di = choice(4);
     let mut rq = Request::new_with_body(body.clone(), arid(1));
     if !note.is_empty() || flag() { rq = rq.with_note(note); }
@@ -327,7 +329,7 @@ fn c18_response() -> R {
 }
 
 fn c18_event() -> R {
-    let note = ["", "a note"][choice(2)];
+    let note = ["", "a note", " "][choice(3)];
     let di = choice(4);
     let ci = choice(3);
     op("Event -> Envelope");
@@ -446,6 +448,12 @@ fn c19_malformed() -> R {
     let r = with_good.attachments();
     ensure!(matches!(r.as_ref().err().and_then(|x| x.downcast_ref::<EnvelopeError>()), Some(EnvelopeError::InvalidAttachment)) || r.is_err(), "a malformed attachment assertion is not reported invalid", "{}: {:?}", bn, r.as_ref().map(|v| v.len()).ok());
     ensure!(good.validate_attachment().is_ok(), "well-formed attachment does not validate", "");
+    // ... whatever the filter: a filter that would not select the malformed one must not hide it
+    op("attachments_with_vendor_and_conforms_to (malformed present, filtered out)");
+    for (v, c) in [(Some("no.such.vendor"), None), (None, Some("https://nowhere")), (Some("com.example"), Some("https://example.com/v1"))] {
+        ensure!(with_good.attachments_with_vendor_and_conforms_to(v, c).is_err(), "a malformed attachment assertion is not reported invalid under a filter", "{} with filter {:?}/{:?}", bn, v, c);
+        ensure!(with_good.attachment_with_vendor_and_conforms_to(v, c).is_err(), "a malformed attachment assertion is not reported invalid under a filter", "{} single-result form", bn);
+    }
     Ok(())
 }
 
@@ -504,7 +512,7 @@ pub fn prop_c18() -> Prop {
         id: "C18",
         scenarios: vec![
             Scenario { name: "expression", f: c18_expression, thorough_only: false,
-                bounds: "7 functions (known named / unnamed, named, static named, named with the text of a known one, empty name) x 0..2 parameters out of 6 (known, named, static named, named with a known one's text; repeats allowed) x 7 value envelopes (leaf, node, wrapped, known value, elided, assertion) x expected-function check against each of the 7 functions x direct and through bytes x every digest order; 3 non-function subjects. Values are a catalogue",
+                bounds: "8 functions (known named / unnamed, named, static named, named with the text of a known one, empty name, all-digit name) x 0..2 parameters out of 6 (known, named, static named, named with a known one's text; repeats allowed) x 7 value envelopes (leaf, node, wrapped, known value, elided, assertion) x expected-function check against each of the 7 functions x direct and through bytes x every digest order; 3 non-function subjects. Values are a catalogue",
                 api: &["Expression::new", "with_parameter", "From<Expression> for Envelope", "TryFrom<Envelope> for Expression", "TryFrom<(Envelope, Option<&Function>)>", "objects_for_parameter"] },
             Scenario { name: "request", f: c18_request, thorough_only: false,
                 bounds: "4 functions x 0..1 parameters (3 values) x note absent / empty / non-empty x date absent / integral / fractional / negative x expected function and 6 malformed variants on the canonical request (body removed / doubled / not an expression, subject retagged / untagged, note not text) x every digest order",
